@@ -167,7 +167,22 @@ func (f *Frame) execCall(cur *blockCur, in ssa.Instruction, cc *ssa.CallCommon, 
 					if f.c.callHist == nil {
 						f.c.callHist = map[string][]callRec{}
 					}
-					f.c.callHist[n] = append(f.c.callHist[n], callRec{cond: cur.reach, val: v})
+					recv := ""
+					if cc.IsInvoke() {
+						recv = f.c.termOf(f.val(cc.Value))
+						if cc.Method.FullName() == "(context.Context).Err" && v.S != "" {
+							// documented: "If Done is closed, Err returns a non-nil error ... After Err returns a non-nil error,
+							// successive calls to Err return the same error." — on the same context value, an earlier non-nil
+							// answer on this path fixes this one (assumption, listed)
+							for _, pr := range f.c.callHist[n] {
+								if pr.recv == recv && pr.val.S != "" {
+									cur.assume(fmt.Sprintf("(=> (and %s (not (= %s iface_nil))) (= %s %s))", pr.cond, pr.val.S, v.S, pr.val.S))
+									f.c.assume("context.Context.Err is stable once non-nil (documented behaviour of the context package)")
+								}
+							}
+						}
+					}
+					f.c.callHist[n] = append(f.c.callHist[n], callRec{cond: cur.reach, val: v, recv: recv})
 					// returned(NAME, k): the k-th call site of NAME in source order
 					if k := f.callOrdinal(n, in); k > 0 {
 						nk := fmt.Sprintf("%s#%d", n, k)
@@ -397,6 +412,7 @@ func (f *Frame) havocAll(cur *blockCur) {
 type callRec struct {
 	cond string
 	val  Val
+	recv string // receiver term of an interface-method call
 }
 
 // callHistName: the name under which returned(NAME) finds the call.
